@@ -344,8 +344,22 @@ impl<'b, 'a> Parser<'a, 'b> {
     ///
     /// In practice this is useful when missing things like semis or braces.
     pub(crate) fn err_before_ws(&mut self, error: impl Into<String>) {
+        let range = self.range_before_ws();
+        self.raw_error(range, error);
+    }
+
+    /// The first character of the current token's leading trivia (or of the token itself).
+    ///
+    /// This is one whole character, not one byte, and is empty at the end of input,
+    /// so that the range always lies inside the source text.
+    fn range_before_ws(&self) -> Range<usize> {
         let pos = self.buf[0].start_pos;
-        self.raw_error(pos..pos + 1, error);
+        let len = self
+            .text
+            .get(pos..)
+            .and_then(|rest| rest.chars().next())
+            .map_or(0, char::len_utf8);
+        pos..pos + len
     }
 
     /// Write a *warning* before the whitespace of the associated token.
@@ -353,8 +367,8 @@ impl<'b, 'a> Parser<'a, 'b> {
     /// This only exists so we can warn if a semi is missing after an include
     /// statement (which is common in the wild)
     pub(crate) fn warn_before_ws(&mut self, error: impl Into<String>) {
-        let pos = self.buf[0].start_pos;
-        let diagnostic = Diagnostic::warning(FileId::CURRENT_FILE, pos..pos + 1, error);
+        let range = self.range_before_ws();
+        let diagnostic = Diagnostic::warning(FileId::CURRENT_FILE, range, error);
         self.sink.error(diagnostic);
     }
 
